@@ -146,10 +146,13 @@ pub fn gen_c18(seed: u64, tier: Tier) -> Scenario {
     let total: usize = instances.iter().map(|i| i.ops.len()).sum();
     let p_mig = if rng.chance(0.2) { 0.0 } else { rng.uniform(0.05, 0.6) };
     let mut schedule = Vec::with_capacity(total);
+    // a fifth of the scenarios: some calls are issued from a destructor while the caller's thread unwinds
+    let p_unw = if rng.chance(0.2) { rng.uniform(0.02, 0.3) } else { 0.0 };
     for _ in 0..total {
         let slot = rng.below(256) as u8;
         let mig: i8 = if rng.chance(p_mig) { rng.below(threads as u64) as i8 } else { -1 };
-        schedule.push((0u8, slot, mig));
+        let flags: u8 = if p_unw > 0.0 && rng.chance(p_unw) { 1 } else { 0 };
+        schedule.push((flags, slot, mig));
     }
     let mut ctor_faults = Vec::new();
     if rng.chance(0.4) {
@@ -181,7 +184,8 @@ pub fn gen_c18(seed: u64, tier: Tier) -> Scenario {
 
 enum Cmd {
     Construct(usize, Box<InstanceSpec>),
-    Step(usize, usize, Box<Op>),
+    /// (instance, op index, op, issue the call from a destructor while the thread unwinds)
+    Step(usize, usize, Box<Op>, bool),
     Give(usize, usize),
     Take(usize, Box<AnyRunner>),
     Finish(usize),
@@ -210,9 +214,28 @@ fn worker_loop(rx: Receiver<Cmd>, tx: Sender<Reply>) {
                     let _ = tx.send(Reply::ConstructErr(id, e));
                 }
             },
-            Cmd::Step(id, i, op) => {
+            Cmd::Step(id, i, op, unwinding) => {
                 if let Some((_, r)) = mine.iter_mut().find(|(k, _)| *k == id) {
-                    r.step(i, &op);
+                    if unwinding {
+                        // the caller issues this call from a destructor that runs while its thread unwinds
+                        // (`std::thread::panicking()` is true for the whole call); the unwind is caught right after
+                        struct OnDrop<'a> {
+                            r: &'a mut AnyRunner,
+                            i: usize,
+                            op: &'a Op,
+                        }
+                        impl Drop for OnDrop<'_> {
+                            fn drop(&mut self) {
+                                self.r.step(self.i, self.op);
+                            }
+                        }
+                        let _ = std::panic::catch_unwind(std::panic::AssertUnwindSafe(|| {
+                            let _g = OnDrop { r, i, op: &op };
+                            std::panic::resume_unwind(Box::new("caller unwinds (injected)"));
+                        }));
+                    } else {
+                        r.step(i, &op);
+                    }
                 }
                 let _ = tx.send(Reply::Done);
             }
@@ -345,11 +368,12 @@ pub fn eval_c18(sc: &Scenario) -> Outcome {
     let mut late = 0u64;
     let mut faults_fired = 0u64;
     let mut unwinds_fired = 0u64;
+    let mut calls_while_unwinding = 0u64;
     let mut migrations = 0u64;
     let mut steps = 0u64;
     let mut thread_switches = 0u64;
     let mut last_thread = usize::MAX;
-    for (_, slot, mig) in schedule.iter() {
+    for (flags, slot, mig) in schedule.iter() {
         for id in 0..instances.len() {
             if !constructed[id] && (instances[id].born as u64) <= steps {
                 construct(id, &mut alive, &mut construct_err, &mut constructed);
@@ -383,7 +407,11 @@ pub fn eval_c18(sc: &Scenario) -> Outcome {
             last_thread = th;
         }
         let op = instances[id].ops[next_op[id]].clone();
-        let _ = txs[th].send(Cmd::Step(id, next_op[id], Box::new(op)));
+        let unwinding = *flags & 1 != 0;
+        if unwinding {
+            calls_while_unwinding += 1;
+        }
+        let _ = txs[th].send(Cmd::Step(id, next_op[id], Box::new(op), unwinding));
         if rxs[th].recv().is_err() {
             out.push("C18", "call-did-not-complete", next_op[id], format!("caller thread {} died while instance {} ran op {}", th, id, next_op[id]));
             break;
@@ -413,6 +441,7 @@ pub fn eval_c18(sc: &Scenario) -> Outcome {
     out.cov.fault("F3_failing_constructor_calls", faults_fired);
     out.cov.fault("F8_foreign_call_unwinding_in_user_buffer", unwinds_fired);
     out.cov.fault("F10_caller_threads_with_small_stack", small_stacks);
+    out.cov.fault("F10_calls_issued_while_the_thread_unwinds", calls_while_unwinding);
     // collect traces
     let mut traces: Vec<Option<Trace>> = (0..instances.len()).map(|_| None).collect();
     for id in 0..instances.len() {
